@@ -5,7 +5,7 @@
 use std::collections::BTreeMap;
 
 use bit_vec::BitVec;
-use serde_json::{json, Value};
+use serde_json::Value;
 use vcore::{bft::*, *};
 use zksync_consensus_roles::validator::{
     self,
